@@ -34,6 +34,7 @@ from liquid2 import is_template_string_token
 from liquid2 import is_token_type
 from liquid2.exceptions import LiquidSyntaxError
 from liquid2.exceptions import LiquidTypeError
+from liquid2.exceptions import LiquidValueError
 from liquid2.exceptions import UnknownFilterError
 from liquid2.expression import Expression
 from liquid2.limits import MAX_STR_INT
@@ -1757,12 +1758,18 @@ class LoopExpression(Expression):
         if isinstance(obj, Mapping):
             return iter(obj.items()), len(obj)
         if isinstance(obj, range):
-            return iter(obj), len(obj)
+            try:
+                return iter(obj), len(obj)
+            except OverflowError as err:
+                raise LiquidTypeError(
+                    f"the range at '{self.iterable}' is too large", token=self.token
+                ) from err
         if isinstance(obj, Sequence):
             return iter(obj), len(obj)
 
         raise LiquidTypeError(
-            f"expected an iterable at '{self.iterable}', found '{obj}'",
+            f"expected an iterable at '{self.iterable}', "
+            f"found {obj.__class__.__name__}",
             token=self.token,
         )
 
@@ -2217,9 +2224,17 @@ def _lt(token: TokenT, left: object, right: object) -> bool:
 
 def _contains(token: TokenT, left: object, right: object) -> bool:
     if isinstance(left, str):
-        return str(right) in left
+        try:
+            return str(right) in left
+        except ValueError as err:
+            # An integer with more digits than the interpreter is willing to convert.
+            raise LiquidValueError(str(err), token=token) from err
     if isinstance(left, Collection):
-        return right in left
+        try:
+            return right in left
+        except TypeError:
+            # An unhashable object can't be a member of a hash or set.
+            return False
 
     raise LiquidTypeError(
         f"'in' and 'contains' are not supported between '{left.__class__.__name__}' "
@@ -2250,7 +2265,11 @@ def _to_liquid_string(val: Any, *, auto_escape: bool = False) -> str:
     elif isinstance(val, (Empty, Blank)):
         val = ""
     else:
-        val = str(val)
+        try:
+            val = str(val)
+        except ValueError as err:
+            # An integer with more digits than the interpreter is willing to convert.
+            raise LiquidValueError(str(err), token=None) from err
 
     if auto_escape:
         val = escape(val)
